@@ -63,9 +63,13 @@ var entryPoints = []struct {
 	fn   epFunc
 }{
 	{"BlockReader.Next", true, true, func(f []byte, _ string, o []carv2.Option) error { return drainBR(bytes.NewReader(f), false, o) }},
-	{"BlockReader.Next(plain)", true, true, func(f []byte, _ string, o []carv2.Option) error { return drainBR(&plainReader{bytes.NewReader(f)}, false, o) }},
+	{"BlockReader.Next(plain)", true, true, func(f []byte, _ string, o []carv2.Option) error {
+		return drainBR(&plainReader{bytes.NewReader(f)}, false, o)
+	}},
 	{"BlockReader.SkipNext", true, true, func(f []byte, _ string, o []carv2.Option) error { return drainBR(bytes.NewReader(f), true, o) }},
-	{"BlockReader.SkipNext(plain)", true, true, func(f []byte, _ string, o []carv2.Option) error { return drainBR(&plainReader{bytes.NewReader(f)}, true, o) }},
+	{"BlockReader.SkipNext(plain)", true, true, func(f []byte, _ string, o []carv2.Option) error {
+		return drainBR(&plainReader{bytes.NewReader(f)}, true, o)
+	}},
 	{"Reader.Roots", true, false, func(f []byte, _ string, o []carv2.Option) error {
 		r, err := carv2.NewReader(bytes.NewReader(f), o...)
 		if err != nil {
@@ -103,7 +107,10 @@ var entryPoints = []struct {
 		}
 		return nil
 	}},
-	{"GenerateIndex", true, false, func(f []byte, _ string, o []carv2.Option) error { _, err := carv2.GenerateIndex(bytes.NewReader(f), o...); return err }},
+	{"GenerateIndex", true, false, func(f []byte, _ string, o []carv2.Option) error {
+		_, err := carv2.GenerateIndex(bytes.NewReader(f), o...)
+		return err
+	}},
 	{"LoadIndex(plain)", true, false, func(f []byte, _ string, o []carv2.Option) error {
 		return carv2.LoadIndex(index.NewInsertionIndex(), &plainReader{bytes.NewReader(f)}, o...)
 	}},
@@ -393,7 +400,19 @@ func mutate(rng interface {
 		in = []byte{0}
 	}
 	for e := 1 + rng.Intn(3); e > 0; e-- {
-		switch rng.Intn(9) {
+		switch rng.Intn(10) {
+		case 9: // a section that announces fewer bytes than its CID takes: the byte before a real CID becomes a small length
+			if offs := cidLenOffsets(in); len(offs) > 0 {
+				// cidLenOffsets points at the digest-length byte; the CID starts 3 bytes earlier for the alphabet's
+				// CIDv1s (version, codec, hash code) and 1 byte earlier for a CIDv0
+				p := offs[rng.Intn(len(offs))]
+				for _, back := range []int{4, 2} {
+					if q := p - back; q >= 0 && in[q] < 0x80 && in[q] > 0 {
+						in[q] = []byte{1, 2, 10, 35}[rng.Intn(4)]
+						break
+					}
+				}
+			}
 		case 7: // a CID announcing a huge digest: the length byte of a real CID becomes a big varint
 			if offs := cidLenOffsets(in); len(offs) > 0 {
 				p := offs[rng.Intn(len(offs))]
